@@ -449,6 +449,9 @@ def gen_pabf(r, k, T):
     c["fam"] = "pabf"
     c["tags"] = ["pabf", "freq=%d" % freq] + c["tags"][1:]
     c["sigtags"] = []
+    # the PMF comes from a conjugate-gradient solver stopped at integrateTol (1e-6): a text state (14 digits of the
+    # gradients, divergence recomputed instead of updated) can change its iteration count
+    c["tol"] = 1e-5
     return c
 
 
